@@ -47,17 +47,34 @@ def report_lines() -> list[list[str]]:
 
 @lru_cache(maxsize=1)
 def spec_tables() -> dict:
-    """documented tables (Ptx/Sem/Spec.lean), for evaluating witnesses in Python"""
+    """documented tables (Ptx/Sem/Spec.lean), for evaluating witnesses in Python.
+    Cached in lean/.audit/spec_tables.json, keyed by the content of Spec.lean + Logic.lean."""
+    import hashlib
+    h = hashlib.sha256()
+    for f in ('Ptx/Sem/Spec.lean', 'Ptx/Sem/Logic.lean', 'Ptx/Sem/SpecDump.lean'):
+        h.update((LEAN / f).read_bytes())
+    cache = LEAN / '.audit' / 'spec_tables.json'
+    if cache.exists():
+        try:
+            blob = json.loads(cache.read_text())
+            if blob.get('key') == h.hexdigest():
+                return _spec_from_rows(blob['rows'])
+        except Exception:  # noqa
+            pass
     with common.build_lock():
-        b = run(['lake', 'build', 'Ptx.Sem.Spec'], cwd=LEAN, timeout=900)
-    p = run(['lake', 'env', 'lean', '--run', 'Ptx/Sem/SpecDump.lean'], cwd=LEAN, timeout=600)
+        run(['lake', 'build', 'Ptx.Sem.Spec'], cwd=LEAN, timeout=900)
+        p = run(['lake', 'env', 'lean', '--run', 'Ptx/Sem/SpecDump.lean'], cwd=LEAN, timeout=600)
     if p.returncode != 0:
         raise InfraError('SpecDump failed: ' + (p.stdout + p.stderr)[-2000:])
+    rows = [ln.split() for ln in p.stdout.splitlines() if ln.strip()]
+    cache.parent.mkdir(exist_ok=True)
+    cache.write_text(json.dumps(dict(key=h.hexdigest(), rows=rows)))
+    return _spec_from_rows(rows)
+
+
+def _spec_from_rows(rows) -> dict:
     out: dict = {}
-    for ln in p.stdout.splitlines():
-        t = ln.split()
-        if not t:
-            continue
+    for t in rows:
         k, n = t[0], t[1]
         d = out.setdefault(n, dict(vals='', des='', t1={}, t2={}, qf={}, mf={}))
         if k in ('vals', 'des'):
